@@ -11,6 +11,7 @@ mod func;
 mod lock;
 mod util;
 mod walring;
+mod worker;
 
 fn main() {
     let args: Vec<String> = std::env::args().collect();
@@ -24,6 +25,7 @@ fn main() {
         "walring-trace" => walring::trace(rest),
         "core-run" => core::run(rest),
         "lock-run" => lock::run(rest),
+        "worker-run" => worker::run(rest),
         "disk-probe" => disk::probe(rest),
         "func-run" => func::run(rest),
         "func-query-one" => func::query_one(rest),
